@@ -59,12 +59,12 @@ def gen_run(rng, cfg):
     actors = []
     shared_prog = None
     for i in range(n):
-        kind = _pick_weighted(rng, [("parse", 5), ("roundtrip", 2), ("gen", 2), ("visit", 1.5), ("lex", 1), ("mixed", 2)])
+        kind = _pick_weighted(rng, [("parse", 5), ("roundtrip", 2), ("gen", 2), ("visit", 1.5), ("lex", 1), ("parse_file", 0.7), ("mixed", 2)])
         nops = rng.choice([1, 1, 2, 2, 3, 4])
         pg = W.ProgGen(rng, actor=i, size=size, depth=depth, sloppy=sloppy, marks=True)
         ops = []
         for k in range(nops):
-            opk = kind if kind != "mixed" else rng.choice(["parse", "roundtrip", "gen", "visit", "lex"])
+            opk = kind if kind != "mixed" else rng.choice(["parse", "roundtrip", "gen", "visit", "lex", "parse_file"])
             x = rng.random()
             if long_inputs and opk in ("parse", "lex") and k == 0:
                 items = list(rng.choice(cfg["long_corpus"])[1])
@@ -89,6 +89,14 @@ def gen_run(rng, cfg):
             if opk == "gen":
                 op["select"] = [rng.choice(GEN_SELECT), rng.randrange(8), rng.sample(GEN_SELECT[1:10], 3)]
                 op["reduce"] = rng.random() < 0.4
+                op["gencls"] = rng.choice(["plain", "plain", "Upper", "UpperMore"])
+            elif opk == "parse_file":
+                op["use_cpp"] = rng.random() < 0.4
+                if faulty and rng.random() < 0.25:
+                    k = rng.choice(["cpp-missing", "cpp-fails", "short-read"] if op["use_cpp"] else ["open-error", "decode-error", "short-read"])
+                    op["io_fault"] = {"kind": k}
+                    if k == "short-read":
+                        op["io_fault"]["at"] = rng.randrange(0, max(1, len("\n".join(items))))
             elif opk == "roundtrip":
                 op["reduce"] = rng.random() < 0.3
             elif opk == "visit":
@@ -113,7 +121,7 @@ def gen_run(rng, cfg):
     # crash-one: an asynchronous abort inside one actor while the others go on
     if faulty and rng.random() < 0.6:
         victim = rng.randrange(n)
-        cands = [op for op in actors[victim]["ops"] if op["op"] in ("parse", "roundtrip", "lex")]
+        cands = [op for op in actors[victim]["ops"] if op["op"] in ("parse", "roundtrip", "lex", "parse_file")]
         if cands:
             op = rng.choice(cands)
             text = "\n".join(op["items"])
